@@ -65,7 +65,8 @@ class REPEX_state:
             "keep_traj_fnames", []
         )
         # set rng
-        if "restarted_from" in config["current"]:
+        self.restore_rgen_state = "restarted_from" in config["current"]
+        if self.restore_rgen_state:
             self.set_rgen()
         else:
             self.rgen = default_rng(seed=config["simulation"]["seed"])
@@ -225,10 +226,15 @@ class REPEX_state:
         In case a crash, we pick lock locked from previous simulation.
         """
         if not self.locked0:
-            if "restarted_from" in self.config["current"]:
+            if self.restore_rgen_state:
                 # get the same pick() as pre-restart. Need to set it again
                 # because current self.rgen was used for calculating self.prob.
-                self.set_rgen()
+                # Only once, and only the state: the spawn counter must keep
+                # counting the children handed out since the restart.
+                self.rgen.bit_generator.state = self.config["current"][
+                    "rng_state"
+                ]
+                self.restore_rgen_state = False
             return self.pick()
 
         enss = []
